@@ -82,7 +82,7 @@ def list_ops():
         ops.append(('remove', v))
         ops.append(('index_of', v))
         ops.append(('in', v))
-    ops += [('pop',), ('len',), ('slice', '1', '3'), ('slice', '-2', ''), ('slice', '', '1.9')]
+    ops += [('pop',), ('len',), ('slice', '1', '3'), ('slice', '-2', ''), ('slice', '', '1.9'), ('slice', '', '0'), ('slice', '0', ''), ('slice', '2', '0'), ('slice', '0', '0'), ('slice', '', '0.5'), ('slice', '-1', '0')]
     for i in IDX:
         ops += [('read', i), ('del', i), ('popi', i)]
         ops.append(('write', i, '5'))
